@@ -188,6 +188,14 @@ def cases(g):
     yield 'minimum', lambda np: np.minimum(np.array(A), B)
     yield 'maximum', lambda np: np.maximum(np.array(A), np.array(B))
     yield 'clip', lambda np: np.clip(np.array(A), -1, 2)
+    def fsort(np):
+        a = np.array(A)
+        a.sort(axis=ax)
+        b = np.array(A)
+        np.median(b, axis=None if r.random() < 0.3 else ax, overwrite_input=False)
+        return (a, b)
+    if kind != 'b' or True:
+        yield 'sort.nd.inplace', fsort
     yield 'result_type', lambda np: (np.result_type(np.array(A), np.array(B)).kind, np.result_type(np.array(A), np.array(A)).kind, np.promote_types(np.array(A).dtype, bool).kind)
     if kind in 'fi':
         yield 'isclose', lambda np: np.isclose(np.array(A), B)
